@@ -69,7 +69,7 @@ end Tape
 
 /-- All `WengertList`s of a program, by id.  A list that was never touched is empty
     (`WengertList::new`, differentiation.rs:653). -/
-def World (R : Type) := Nat → Tape R
+abbrev World (R : Type) := Nat → Tape R
 
 namespace World
 variable {R : Type}
